@@ -41,7 +41,12 @@ def _prog(seed, r):
     if k < 0.3:
         sc = scen.corpus_scenario(r)
         return sc['text'], None, sc['script']
-    sc = scen.generated_scenario(seed)
+    if r.random() < 0.4:
+        # programs whose behaviour hangs on the devices: key polling loops,
+        # TIMER / RND / INKEY$ in expressions
+        sc = scen.generated_scenario(seed, devfuncs=True, strings=True, loops=True, waitkey=0.6)
+    else:
+        sc = scen.generated_scenario(seed)
     return sc['text'], sc['ast'], sc['script']
 
 
